@@ -8,3 +8,8 @@ def run(tier, seed):
     explore(res, "mux", tier, module="MC_Derive", invariants=["TypeOK", "AggregatedIsSum"],
             configs=[dict(n=2, maxw=2, batches=False, metaops=False, xs=["L1", "L2"])])
     return run_container("C04", "mux", tier, seed, res=res, plan={"derive": ("mux", 0.6)})
+
+
+def replay(path):
+    from checks.containers import replay_container
+    return replay_container("C04", path)
